@@ -6,7 +6,7 @@ From V Require Export Base.Bytes.
 (* options given to Open: read-only, write-buffer size, retryableSync, autoSync *)
 Record oopts := mko { o_ro : bool; o_buf : N; o_retry : bool; o_auto : bool }.
 
-(* operations of appendable.Appendable that are modelled (Copy and compression are not) *)
+(* operations of appendable.Appendable that are modelled (compression is not) *)
 Inductive op :=
 | Append (bs : bytes)
 | ReadAt (n off : N)          (* ReadAt(make([]byte, n), off) *)
@@ -19,7 +19,8 @@ Inductive op :=
 | SwitchRO                    (* SwitchToReadOnlyMode *)
 | Close
 | Reopen (o : oopts)          (* Open of the same path; only issued on a closed appendable *)
-| Meta.                       (* Metadata() *)
+| Meta                        (* Metadata() *)
+| Copy.                       (* Copy(dst), then the copy is opened read-only and read completely *)
 
 (* observable results.  Error values are reduced to: io.EOF on reads (part of ORead),
    ErrBufferFull (OFull, because it leaves a partial append behind) and "some other error" *)
@@ -31,6 +32,7 @@ Inductive out :=
 | ORead (bs : bytes) (eof : bool) (* ReadAt: the n returned bytes, err == io.EOF *)
 | ON (n : N)                  (* Size / Offset *)
 | OBytes (b : bytes)          (* Metadata *)
+| OCopy (b : bytes)           (* Copy succeeded; b = everything a read-only Open of the copy holds *)
 | OAny.                       (* produced by the SPECIFICATION only: result left unspecified *)
 
 Definition slice (b : bytes) (i j : N) : bytes := take (j - i) (drop i b).
@@ -111,6 +113,10 @@ Definition spec_step (a : log) (o : op) : log * out :=
       else if negb (opts_valid o) then (a, OErr)      (* Options.Validate: a writer needs a buffer *)
       else (mklog (l_data a) (o_ro o) false (l_meta a) (cap_of o) (l_size a) (l_size a) (l_disc a) false, OOk)
   | Meta => (a, OBytes (l_meta a))
+  | Copy =>
+      (* the copy holds the byte array (Copy flushes first); after a DiscardUpto its prefix is unspecified *)
+      if l_closed a then (a, OErr)
+      else (set_marks a (l_sy a) (l_size a), if 0 <? l_disc a then OAny else OCopy (l_data a))
   end.
 
 Fixpoint spec_run (a : log) (ops : list op) : list out :=
@@ -127,3 +133,7 @@ Fixpoint spec_state (a : log) (ops : list op) : log :=
 
 (* an implementation output is acceptable when the specification leaves it open or it is equal *)
 Definition out_match (impl spec : out) : Prop := spec = OAny \/ impl = spec.
+
+(* weaker, for Copy only: the copy starts with exactly the byte array (it may carry more bytes) *)
+Definition out_match_c (impl spec : out) : Prop :=
+  out_match impl spec \/ exists bs t, impl = OCopy (bs ++ t) /\ spec = OCopy bs.
